@@ -10,7 +10,7 @@
     over model topologies is covered per generated program (see DESIGN.md section 6, C01). *)
 From Coq Require Import List String Bool ZArith QArith Reals Qreals Lra Lia.
 From SFC.Base Require Import Str Expr.
-From SFC.Gen Require Import Poly Expand Checker CaseDefs.
+From SFC.Gen Require Import Poly Expand Checker CaseDefs Fx Flows.
 Import ListNotations.
 Local Open Scope R_scope.
 Local Open Scope string_scope.
@@ -69,6 +69,16 @@ Proof.
   unfold sat_eq in Hsat. simpl in Hsat. rewrite (Hsat 0%nat (le_S _ _ (le_n 0))). reflexivity.
 Qed.
 Print Assumptions C01_balance_certificate_diff.
+
+(** Booking level, for ALL sequences of flow registrations (same-zone, cross-zone through the FX
+    intermediary, gold purchases) and ALL valuations: the entries booked on the sectors of a real
+    currency zone and on the intermediary's NET_<currency> cancel (model Flows.v of
+    models.py:_GenerateRegisteredCashFlows / external.py, tied by correspondence on term lists). *)
+Theorem C01_flows_conserve_money :
+  forall (zone_of : string -> string) (v : string -> R) (ops : list flowop) (z : string),
+    Forall (op_ok zone_of) ops -> z <> NUM -> zone_total zone_of v (flow_run ops) z = 0.
+Proof. exact flows_conserve_money. Qed.
+Print Assumptions C01_flows_conserve_money.
 
 (** Non-vacuity: a two-sector economy with one paired flow and an interest payment on a stock
     whose previous-period consistency is part of the system; the checker accepts. *)
